@@ -281,6 +281,7 @@ impl Prop for C20Prop {
     fn subs(&self, tier: Tier) -> Vec<Sub> {
         vec![
             Sub { name: "targeted", kind: SubKind::Enum { count: targeted().len() as u64 } },
+            Sub { name: "chains", kind: SubKind::Enum { count: 5 * 2 * 699 } },
             Sub { name: "idioms", kind: SubKind::Enum { count: idioms().len() as u64 } },
             Sub { name: "compose", kind: SubKind::Random { cases: tier.pick(500_000, 20_000_000), len: 200 } },
             Sub { name: "split", kind: SubKind::Random { cases: tier.pick(400_000, 20_000_000), len: 200 } },
@@ -289,6 +290,17 @@ impl Prop for C20Prop {
     fn gen_enum(&self, sub: &str, idx: u64, _tier: Tier) -> Option<Case> {
         if sub == "idioms" {
             return idioms().get(idx as usize).cloned();
+        }
+        if sub == "chains" {
+            // the hole at the head (or the tail) of a flat chain of every length 2..700: a depth limit that counts the
+            // subexpression's own height is crossed by C[(E)] one term earlier than by C[@]
+            let ev = Ev::ALL[(idx % 5) as usize];
+            let head = (idx / 5) % 2 == 0;
+            let n = 2 + (idx / 10) as usize;
+            let ctx = if head { format!("@{}", "+1".repeat(n)) } else { format!("{}@", "1+".repeat(n)) };
+            let mut case = Case::new(ev, ctx, Val::default_for(ev));
+            case.aux = vec![["2*3", "(1+1)*(2+1)", "2^2+2"][n % 3].to_string()];
+            return Some(case);
         }
         targeted().get(idx as usize).cloned()
     }
